@@ -12,6 +12,7 @@ PROP = {
         "quick": [B("stable"), B("nightly", 0.25, False)],
         "thorough": [B("stable"), B("fma", 0.5), B("nightly", 0.5, False)],
     },
+    "volume": {"quick": 10},
     "technique": "property-based testing: proptest generators (integer quaternions, constructed unit quaternions, special-value lattice) against an exact i64 Hamilton product and an f64 / double-double "
                  "reference of the Hamilton and sandwich products written in the harness, in the SSE2, scalar-math, nightly core-simd (and +fma) builds of the working tree",
     "level_text": "Generated-input search: the Hamilton product of Quat and DQuat (operator, mul_quat, MulAssign, Product) is required to be the exact integer 4-tuple in (x,y,z,w) storage order on integer "
